@@ -130,10 +130,17 @@ class Geometry:
             self.cached_voxel_volume = self.voxel_volume * scaling
 
         # ! ---- Perform spatial integration
+        # Spatially varying volumes act on the spatial axes only, also for
+        # time series and non-scalar data.
+        volume = self.cached_voxel_volume
+        if isinstance(volume, np.ndarray):
+            volume = volume.reshape(
+                volume.shape + (1,) * (fetched_data.ndim - volume.ndim)
+            )
         if isinstance(data, np.ndarray):
-            weighted_sum = np.multiply(self.cached_voxel_volume, data)
+            weighted_sum = np.multiply(volume, data)
         elif isinstance(data, darsia.Image):
-            weighted_sum = np.multiply(self.cached_voxel_volume, data.img)
+            weighted_sum = np.multiply(volume, data.img)
         else:
             raise ValueError("Data type not supported.")
         for i in range(self.space_dim):
